@@ -135,6 +135,12 @@ func TestVerifRejectScenarios(t *testing.T) {
 					rec["panic"] = rec["panic"][:100]
 				}
 			}
+			// the very same mistake a second time (nothing the first rejection left behind may make it pass)
+			if v != nil {
+				if v2 := catchVal(func() { sc.do(b) }); v2 == nil {
+					rec["outcome"] = "accepted-on-second-attempt"
+				}
+			}
 			rec["image"] = im.outside(allowed)
 			rec["target"] = "orig"
 			if p := catch(func() { rec["target"] = sc.target() }); p != "" {
